@@ -62,7 +62,10 @@ def g_scal(rng, sc_, d):
             return V(rng.choice(sc_.scal))
         if q < 0.7:
             return V(rng.choice(["<t>", "<dt>"]))
-        return C(rng.choice([0, 1, 2, 3, -1, 4]))
+        n = rng.choice([0, 1, 2, 3, -1, 4])
+        if not EXACT[0] and rng.random() < 0.3:
+            return ["cf", repr(float(n))]          # int / float twins of the same value (2 and 2.0)
+        return C(n)
     if r < 0.42:
         return ["+", [g_scal(rng, sc_, d - 1), g_scal(rng, sc_, d - 1)]]
     if r < 0.52:
